@@ -27,6 +27,7 @@ func (Prop) Plan(t vp.Tier) []vp.Stage {
 	}
 	return []vp.Stage{
 		{Name: "matrix", NBatches: 16, TimeoutS: 900},
+		{Name: "around-contexts", NBatches: 4, TimeoutS: 600},
 		{Name: "programs", NBatches: nb, TimeoutS: 2400},
 		{Name: "programs-race", NBatches: 8, Race: true, TimeoutS: 2400},
 	}
@@ -70,6 +71,10 @@ func nonTrivial(cs *eng.Case) bool {
 }
 
 func (Prop) RunBatch(c *vp.Child) {
+	if c.Stage == "around-contexts" {
+		runAround(c)
+		return
+	}
 	if c.Stage == "matrix" {
 		cells := lg.TBCMatrix()
 		eng.RunFixed(c, len(cells), 4, func(i int) (*lg.Program, string) {
